@@ -102,6 +102,20 @@ class StaticFileHandler(RequestHandler):
         # Get the requested path (percent-decoded, without leading slash)
         requested_path = unquote(request.path).lstrip("/")
 
+        # A path that climbs above the document root is refused even if it comes
+        # back in through the root's own name ("/../<root>/secret/x"): middleware that
+        # judges the canonical path (certificate rules) ignores ".." at the root, so
+        # it would see a different location from the one served here
+        depth = 0
+        for segment in requested_path.split("/"):
+            if segment in ("", "."):
+                continue
+            depth += -1 if segment == ".." else 1
+            if depth < 0:
+                return GeminiResponse(
+                    status=StatusCode.NOT_FOUND.value, meta="Not found"
+                )
+
         # Construct the full file path
         file_path = (self.document_root / requested_path).resolve()
 
